@@ -387,8 +387,8 @@ def m_unique(interp, a, return_index=False, return_inverse=False, return_counts=
     if not isinstance(a, SArr):
         return _native(np.unique, a, return_index=return_index, return_inverse=return_inverse,
                        return_counts=return_counts, **kw)
-    if return_index or return_inverse or kw:
-        raise Unsupported("np.unique options other than return_counts on symbolic arrays")
+    if return_index or kw:
+        raise Unsupported("np.unique options other than return_counts / return_inverse on symbolic arrays")
     Z = core.Z
     c.trust("np.unique(return_counts=True): sorted distinct values, each with its number of occurrences")
     n = c.int("n_unique")
@@ -409,6 +409,19 @@ def m_unique(interp, a, return_index=False, return_inverse=False, return_counts=
     labels.unique_of = ur
     counts.unique_of = ur
     c.ghost.setdefault("unique", []).append(ur)
+    if return_inverse:
+        c.trust("np.unique(return_inverse=True): inverse has the input's shape (NumPy 2) and labels[inverse[i]] == a[i]")
+        src = a.frozen()
+
+        def inv_elem(*idx):
+            e = src.elem(*idx)
+            q = SInt(pos(core._i(e)))
+            ctx().assume(And(q >= 0, q < n, labels.elem(q) == e))
+            return q
+        inverse = SArr.from_fn(inv_elem, src.shape, np.dtype(np.intp), writeable=False)
+        inverse.unique_of = ur
+        out = (labels, inverse) + ((counts,) if return_counts else ())
+        return out
     if return_counts:
         return labels, counts
     return labels
